@@ -198,6 +198,17 @@ func checkC11(c *Ctx) {
 		if call != nil && calleeID(call) == rawRead {
 			return true, "transport read error (the read on the underlying connection itself failed)"
 		}
+		if call != nil && calleeID(call) == hopID("tubes", "", "fromBytes") {
+			// the decoder's error, after the malformed-frame error was filtered out and the loop continued
+			for k, v := range mf.in[from] {
+				if k.op == token.ILLEGAL && !v {
+					if ec, ok := k.x.(*ssa.Call); ok && calleeID(ec) == "errors.Is" {
+						return true, "decoder error other than a malformed frame (those are filtered by errors.Is before and continue the loop)"
+					}
+				}
+			}
+			return false, "a frame that fails to decode ends the receive loop: one malformed frame stops every tube"
+		}
 		if call == nil || calleeID(call) != hopID("tubes", "Muxer", "readMsg") {
 			return false, ""
 		}
